@@ -59,3 +59,12 @@ func BadRetryForwarder(w io.Writer) error {
 	_, err := io.WriteString(w, "x\n")
 	return err
 }
+
+// FLOATCONV: an integer weight routed through float64
+func BadWeightThroughFloat(weights func(i, j int) int) float64 {
+	return float64(weights(1, 0)) * 1.0
+}
+
+func GoodWeightAsInt(weights func(i, j int) int) int64 {
+	return int64(weights(1, 0))
+}
